@@ -75,6 +75,10 @@ def run(ck):
     for name, a in an.items():
         n += ck.count_obligations(a.obligations(), 'C09.R1')
     ck.panic_rule('C09.R1 panic-freedom of encap, encap_frag, encap_ext and both previews', n, list(an.values()), FLOOR_R1)
+    # the panic obligations of encap_ext that depend on the loops over the extensions are declined above; for chains of one,
+    # two and three extensions (one symbolic data length each, loops unrolled) every one of them is decided
+    from rules import c13
+    c13.bounded_chain_rules(ck, pid='C09.R1b', parts=('panic',))
     # ---- R2 / R3 / R4 at the returns
     n_err = n_ok = 0
     for wname in WRITERS:
